@@ -812,4 +812,38 @@ theorem dd_rawValue (e : EntryS) (h : e.WF) : dedentStr (rawValue e) = Text.join
       rw [dd_line .lead a as _ hai h3, dd_conts _ (fun d hd => hc d (by simp [hd])), join_nl_cons]
       simp [Function.comp_def]
 
+/-! ### `rawValue` is the text that stands in the document -/
+
+/-- is the last line of the field LF-terminated -/
+def lastNl : Bool → List Spec.ContS → Bool
+  | b, [] => b
+  | _, c :: cs => lastNl c.nl cs
+
+open Spec in
+theorem conts_str_raw (b : Bool) (cs : List ContS) (more : Bool) (hb : b = true ∨ cs = [])
+    (ht : contsTerm cs more) :
+    nlText b ++ (cs.map ContS.str).flatten
+      = (cs.map fun c => '\n' :: (c.indent ++ c.text)).flatten ++ nlText (lastNl b cs) := by
+  induction cs generalizing b with
+  | nil => simp [lastNl]
+  | cons c cs ih =>
+    have hb' : b = true := by rcases hb with h | h; exact h; cases h
+    obtain ⟨h1, h2⟩ := ht
+    have := ih c.nl (by rcases h1 with h | h; exact Or.inl h; exact Or.inr h.1) h2
+    subst hb'
+    have e1 : nlText true = ['\n'] := rfl
+    simp only [e1, List.map_cons, List.flatten_cons, ContS.str, List.append_assoc,
+      List.cons_append, List.nil_append, lastNl]
+    rw [this]
+
+open Spec in
+/-- in a document (every line but possibly the very last one LF-terminated, `EntryS.Term`) a field
+    is written `key` `:` `rawValue` and the terminator of its last line -/
+theorem EntryS.str_rawValue (e : EntryS) (more : Bool) (ht : e.Term more) :
+    e.str = e.key ++ ':' :: (rawValue e ++ nlText (lastNl e.nl e.conts)) := by
+  obtain ⟨h1, h2⟩ := ht
+  have := conts_str_raw e.nl e.conts more (by rcases h1 with h | h; exact Or.inl h; exact Or.inr h.1) h2
+  simp only [EntryS.str, rawValue, List.append_assoc, List.cons_append]
+  rw [this]
+
 end Deb822Verif.RelSpec
